@@ -142,3 +142,36 @@ for (nm, fn, tier, tmo) in [('h2.5_2_5', 'aln_fin_h2_5_2_5', 'quick', 2400), ('h
 for (nm, fn) in [('h2.10.two', 'aln_hist_h2_10_two'), ('h2.10.one_rep', 'aln_hist_h2_10_one_rep'), ('h2.6_5.two', 'aln_hist_h2_6_5_two')]:
     ob('C04.hist.' + nm, ['C04'], 'aln_writer/hist', fn, tier='quick' if nm == 'h2.10.two' else 'thorough', family='C04.hist', functions=[AW + 'new', AW + 'write_split_kmer', AW + 'finalise'], needs_parts=['aln_writer/common'],
        sym='reference bases, 1 or 2 centres in reference order, bases, mask flag, optional repeat coordinate', oracle='output = specification directly (no invariant involved)', bounds='layout ' + nm + ', <= 2 calls', timeout=2400, mem_gb=12)
+
+# ------------------------------------------------------------------ C01.acc
+SD = 'src/ska_dict.rs::SkaDict::'
+ob('C01.acc', ['C01', 'C02', 'C15'], 'ska_dict/acc', 'acc_one_kmer', functions=[SD + 'add_to_dict', BE + 'IUPAC', BE + 'decode_base'], inst='u64', caps={'MCAP': 2, 'SCAP': 1, 'ACAP': 1}, models=['hashbrown'],
+   sym='1..=4 observed middle bases of one split k-mer, interleaved with one observation of another k-mer', oracle='exactly one entry per k-mer; stored byte = IUPAC code of the set of bases seen (order/multiplicity independent)',
+   bounds='<= 4 observations (every subset of {A,C,G,T} in every order)', timeout=900, mem_gb=8)
+ob('C01.acc.pal', ['C01', 'C15'], 'ska_dict/acc', 'acc_palindrome', functions=[SD + 'add_palindrome_to_dict'], inst='u64', caps={'MCAP': 2, 'SCAP': 1, 'ACAP': 1}, models=['hashbrown'],
+   sym='1..=4 observed middle bases of a self-reverse-complement split k-mer', oracle='entry = code of bases seen plus complements: W, S or N', bounds='<= 4 observations', timeout=900, mem_gb=8)
+
+# ------------------------------------------------------------------ C03.new / C02.cols / C07
+MD = 'src/merge_ska_dict.rs::MergeSkaDict::'
+for (nm, fn, tier, nk, ns, tmo) in [('2x2', 'append_new_2x2', 'thorough', 2, 2, 3600), ('2x2.swapped', 'append_new_2x2_swapped', 'thorough', 2, 2, 3600), ('3x3', 'append_new_3x3', 'thorough', 3, 3, 7200), ('3x3.perm', 'append_new_3x3_perm', 'thorough', 3, 3, 7200)]:
+    ob('C03.new.' + nm, ['C03', 'C02', 'C01', 'C07'], 'merge_ska_dict/append', fn, tier=tier, functions=[MD + 'new', MD + 'append', MA + 'new', MA + 'n_sample_kmers', MA + 'iter'], inst='u64',
+       needs_parts=['merge_ska_dict/common', 'ska_dict/acc', 'merge_ska_array/common'], caps={'MCAP': nk, 'SCAP': 1, 'ACAP': nk * ns}, models=['hashbrown', 'ndarray'],
+       sym='%d sample dictionaries over a %d-key universe: presence and IUPAC codes symbolic; append order %s' % (ns, nk, nm), oracle='merged entry = sample base in its own column, 0/- where absent; one row per k-mer of the union; counts; names by sample index; independent of append order',
+       bounds='%d samples, %d keys' % (ns, nk), timeout=tmo, mem_gb=16)
+for m in range(16):
+    ob('C03.new.2x2.p%d' % m, ['C03', 'C02', 'C01', 'C07'], 'merge_ska_dict/append', 'append_new_2x2_p%d' % m, tier='thorough', functions=[MD + 'new', MD + 'append', MA + 'new', MA + 'n_sample_kmers', MA + 'iter'], inst='u64',
+       needs_parts=['merge_ska_dict/common', 'ska_dict/acc', 'merge_ska_array/common'], caps={'MCAP': 2, 'SCAP': 1, 'ACAP': 4}, models=['hashbrown', 'ndarray'],
+       sym='2 sample dictionaries over a 2-key universe: IUPAC codes symbolic, presence pattern concrete (mask %d), append order %s' % (m, 'natural' if m % 2 == 0 else 'swapped'),
+       oracle='as C03.new.2x2', bounds='2 samples, 2 keys', timeout=1200, mem_gb=10, quick_sample={'family': 'C03.new', 'pick': 3, 'always': m in (7, 14)})
+for n1, n2 in ((1, 2), (2, 1)):
+    for p0 in range(4):
+        for p1 in range(4):
+            ob('C07.ext.p%d%d.n%d%d' % (p0, p1, n1, n2), ['C07'], 'merge_ska_dict/extend', 'extend_p%d%d_n%d%d' % (p0, p1, n1, n2), tier='thorough', functions=[MD + 'extend'], inst='u64',
+               needs_parts=['merge_ska_dict/common', 'ska_dict/acc'], caps={'MCAP': 2, 'SCAP': 1, 'ACAP': 1}, models=['hashbrown'],
+               sym='two merged dictionaries with %d and %d samples over a 2-key universe; bases/missing symbolic; presence pattern concrete (key0=%d, key1=%d; 1=self 2=other 3=both)' % (n1, n2, p0, p1),
+               oracle='names concatenated; for every key of the union vector = (self | 0^n1) ++ (other | 0^n2); n_samples summed; no other key', bounds='%d+%d samples, 2 keys' % (n1, n2), timeout=1500, mem_gb=12,
+               quick_sample={'family': 'C07.ext', 'pick': 6, 'always': (p0, p1, n1) in ((3, 1, 1), (2, 3, 2))})
+for (nm, fn, f) in [('extend.k', 'extend_refuses_k', 'extend'), ('extend.strand', 'extend_refuses_strand', 'extend'), ('append.k', 'append_refuses_k', 'append'), ('append.strand', 'append_refuses_strand', 'append')]:
+    ob('C07.refuse.' + nm, ['C07'], 'merge_ska_dict/extend', fn, functions=[MD + f], inst='u64', needs_parts=['merge_ska_dict/common', 'ska_dict/acc'], caps={'MCAP': 2, 'SCAP': 1, 'ACAP': 1}, models=['hashbrown'],
+       sym='strand mode; second input differs in ' + nm.split('.')[1], oracle='the refusing panic inside %s is reachable and the statement after the call is not' % f, bounds='2 keys', timeout=900, mem_gb=8,
+       expected_fail=['in function merge_ska_dict::MergeSkaDict::<u64>::' + f])
